@@ -668,6 +668,65 @@ def rule_ag_parse(cx, rep, port='js'):
     rep.decide(n >= 1 and raises, 'parse_number', fd, 'every returned value was tested with isNaN; NaN raises the runtime error', 'parse_number has no path raising the conversion error')
 
 
+def _numparse_model(cx, p, cls, fd):
+    """NumHandler (constructor + parse) evaluated on eight sequences of values: {'exact': problem, 'order': problem} (None = fine) or
+    None when outside the abstract interpreter"""
+    from .. import absexec as AX
+    init = [m for m in cls.body if isinstance(m, ast.FunctionDef) and m.name == '__init__']
+    if len(init) != 1 or len(init[0].args.args) != 2:
+        return None
+    big = '9007199254740993'       # 2**53 + 1: not representable as a double
+    ERR = 'error'
+    cases = [(True, ['5', '7', '2.5', '3'], [5, 7, 2.5, 3.0]), (True, [big, '1'], [int(big), 1]), (True, [5, '7'], [5, '7']), (True, ['x'], [ERR]), (True, ['5', 'x'], [5, ERR]),
+             (False, ['5', '2.5'], [5.0, 2.5]), (True, ['1e3', big], [1000.0, float(big)]), (True, ['-4', ' 6 '], [-4, 6])]
+    res = {}
+    try:
+        for start_int, seq, want in cases:
+            selfv = AX.Abs('Self')
+
+            def on_call(ex, node, fname, recv, args):
+                short = node.func.attr if isinstance(node.func, ast.Attribute) else fname
+                if isinstance(node.func, ast.Name) and node.func.id.endswith('Error'):
+                    return AX.Abs('Exc', cls=node.func.id)
+                if short == 'is_str6' and len(args) == 1:
+                    return isinstance(args[0], str)
+                if short == 'format' and isinstance(recv, (str, AX.Abs)):
+                    return 'message'
+                return AX.NOT_HANDLED
+
+            def on_name(ex, node, name):
+                if name == 'PY3':
+                    return True
+                if name in ('basestring', 'unicode'):
+                    return ('builtin', 'str')
+                if name == 'numeric_conversion_error':
+                    return 'Unable to convert value "{}" to int or float'
+                return AX.NOT_HANDLED
+            ex = AX.Explorer(p, 'rbql_engine', on_call=on_call, on_name=on_name, max_choices=1)
+            ex.cls = 'NumHandler'
+            ex._script, ex._pos, ex.steps, ex.depth = [], 0, 0, 0
+            ex.run = AX.Run()
+            ex.call_fd(init[0], [selfv, start_int])
+            got = []
+            for v in seq:
+                ex.steps, ex.depth = 0, 0
+                try:
+                    got.append(ex.call_fd(fd, [selfv, v]))
+                except AX.Raised as r_:
+                    got.append(ERR if isinstance(r_.value, AX.Abs) and r_.value.props.get('cls') == 'RbqlRuntimeError' else 'other error')
+                    break
+            same = len(got) == len(want) and all((a_ == b_ and type(a_) is type(b_)) for a_, b_ in zip(got, want))
+            if not same:
+                kind = 'exact' if big in seq and start_int and seq[0] == big else 'order'
+                res.setdefault(kind, 'a column with the values {!r} (handler started as {}) is parsed as {!r} instead of {!r}'.format(seq, 'integer' if start_int else 'float', got, want))
+    except (Undecided, AX.Cut, AX._NeedChoice, KeyError, IndexError, TypeError, AttributeError, ValueError) as e_:
+        import os
+        if os.environ.get('RBQL_VERIF_DEBUG'):
+            print('NumHandler model gave up:', type(e_).__name__, str(e_)[:200])
+        return None
+    return res
+
+
 def rule_ag_numparse(cx, rep, port='py'):
     """python NumHandler.parse: an integer string becomes an int by int(text) itself - never by way of a float (a double holds
     integers exactly only up to 2**53, so ids / nanosecond timestamps would be rounded and MIN/MAX/SUM/MEDIAN no longer exact) -
@@ -681,6 +740,11 @@ def rule_ag_numparse(cx, rep, port='py'):
         raise Undecided('anchor vanished: NumHandler.parse(self, val)', cls)
     fd = ms[0]
     val = fd.args.args[1].arg
+    nm = _numparse_model(cx, p, cls, fd)
+    if nm is not None:
+        rep.decide(nm.get('exact') is None, 'exact integers', fd, 'integer strings become exact ints, also above 2**53 (NumHandler evaluated on eight value sequences)', nm.get('exact') or '')
+        rep.decide(nm.get('order') is None, 'int before float', fd, 'a column stays integer until its first non-integer value and is float from then on; non-numeric text raises the runtime error; non-text values pass unchanged', nm.get('order') or '')
+        return
     convs = [c for c in walk_no_nested(fd) if isinstance(c, ast.Call) and isinstance(c.func, ast.Name) and c.func.id in ('int', 'float') and len(c.args) >= 1]
     ints = [c for c in convs if c.func.id == 'int']
     floats = [c for c in convs if c.func.id == 'float']
